@@ -10,6 +10,8 @@ C42 driver.
       reply: `ok <members>` (`;`-joined `<name>|<kind>|<content>|<exec>|<target>`, `-` = none)
              or `E:<final path>` (unknown kind)
   root <dest hex>         reply: hex of `get_root_name(dest)`
+  exts                    reply: `|`-joined hex of the registered extensions, in registration order
+  split <hex>             reply: `|`-joined hex of `s.split("/")`
 -/
 namespace BreezyVerif.C42
 
@@ -72,6 +74,11 @@ def handle : List String → String
   | ["root", dest] =>
     match strOfHex dest with
     | some d => hexOfStr (rootName d)
+    | none => "bad-op"
+  | ["exts"] => "|".intercalate (extensions.map hexOfStr)
+  | ["split", t] =>
+    match strOfHex t with
+    | some t => "|".intercalate ((splitSlash t).map hexOfStr)
     | none => "bad-op"
   | _ => "bad-op"
 
